@@ -312,6 +312,11 @@ def progress_lint(ctx: Ctx) -> None:
                 unparse(x) for x in ast.walk(w.test) if isinstance(x, ast.Attribute)}
             g = build_cfg(fi.node)
             head = g.node_of(w)
+            if isinstance(w.test, ast.Constant) and w.test.value:
+                # `while True:` - the loop ends through the tests of its body: their variables are the condition variables
+                for t_ in g.nodes:
+                    if t_.kind == "test" and t_.ast is not None and _inside(w, t_.ast):
+                        cond_names |= {x.id for x in ast.walk(t_.ast) if isinstance(x, ast.Name)} | {unparse(x) for x in ast.walk(t_.ast) if isinstance(x, ast.Attribute)}
             # nodes of the body that assign a condition variable, or leave the loop
             progress = []
             for node in g.stmts():
@@ -427,6 +432,28 @@ def generic_attributes_read_only_off_generic_values(ctx: Ctx) -> None:
                 ok = cn is not None and bool(guards) and not any(def_reaches_use(g, d, cn.id, name, [(a, b, l_) for a, b, l_ in [(t.id, m_, l2) for t in guards for m_, l2 in g.succ[t.id] if l2 == "true"]]) for d in raw_defs)
                 ctx.ob(f"ElementNode.{m.name}: {name}.{node.attr} is read only after isinstance({name}, <generic element>)", ok, at=m, node=node,
                        msg=f"{name} is whatever an earlier element was bound to (possibly a user model): reading .{node.attr} on it raises AttributeError, not a parser error")
+        # reads through the container itself: params[K].children ... - the entry is generic on every path from where it was taken out
+        # (`previous = params[K]`): either it was replaced by a freshly constructed generic element, or isinstance(previous, ...) held
+        for node in walk_no_nested(m.node):
+            if isinstance(node, ast.Attribute) and node.attr in GENERIC_ATTRS and isinstance(node.ctx, ast.Load) and isinstance(node.value, ast.Subscript) and unparse(node.value.value) == "params":
+                key_txt = unparse(node.value)
+                aliases = {nm: st for nm, st in srcs.items() if unparse(st.value) == key_txt} if all(hasattr(st, "value") for st in srcs.values()) else {}
+                cn = g.node_of(node)
+                if not aliases or cn is None:
+                    continue
+                n += 1
+                fresh = [g.node_of(st) for st, tgt, v in __import__("xsa.q", fromlist=["stores"]).stores(m.node) if unparse(tgt) == key_txt and isinstance(v, ast.Call)]
+                ok = True
+                for nm, st in aliases.items():
+                    dn = g.node_of(st)
+                    guards = [t for t in g.nodes if t.kind == "test" and isinstance(t.ast, ast.Call) and unparse(t.ast.func) == "isinstance" and t.ast.args and unparse(t.ast.args[0]) == nm]
+                    safe_edges = [(t.id, m_, l_) for t in guards for m_, l_ in g.succ[t.id] if l_ == "true"]
+                    if dn is None:
+                        continue
+                    reach = g.reachable([x for x, _ in g.succ[dn.id]], blocked=[f.id for f in fresh if f is not None], blocked_edges=safe_edges)
+                    ok = ok and cn.id not in reach
+                ctx.ob(f"ElementNode.{m.name}: {key_txt}.{node.attr} is read only off a generic element (constructed here, or proved by isinstance on the value taken out)", ok, at=m, node=node,
+                       msg=f"{key_txt} is whatever an earlier element was bound to (possibly a user model): reading .{node.attr} on it raises AttributeError, not a parser error")
     ctx.note("C15.R8 generic attribute reads", n)
     if n == 0:
         ctx.ob("no generic-element attribute is read off collected values", True, at=en.methods["bind_wild_var"], construct="no generic reads")
